@@ -21,8 +21,10 @@
 //
 //	VERIF_C14_DUMP=<Area>:<idx> ./bin/vcheck C14 --cfg <cfg>
 //
-// prints every In/Out value of that operation into the child's log
-// (/verif/build/C14/run/transcript.<cfg>.b<n>.r0.log).
+// evaluates only that line and prints every In/Out value of the operation
+// into the child's log (/verif/build/C14/run/transcript.<cfg>.b<n>.r0.log);
+// no transcript is written in this mode (the run ends INCONCLUSIVE because the
+// mandatory counters stay zero - it is a replay, not a check).
 package c14
 
 import (
@@ -145,6 +147,9 @@ func runArea(t *testing.T, area string, kinds []kind) {
 	lines := make([]string, len(list))
 	lib.Mandatory("c14/" + area + "/ops")
 	lib.Par(len(list), func(idx int) {
+		if dumpIdx >= 0 && idx != dumpIdx {
+			return // replay mode: only the requested line
+		}
 		debug.SetPanicOnFault(true)
 		s := list[idx]
 		name := s.kd.name
@@ -173,6 +178,10 @@ func runArea(t *testing.T, area string, kinds []kind) {
 		}
 	})
 	out, job := os.Getenv("VERIF_OUT"), os.Getenv("VERIF_JOB")
+	if dumpIdx >= 0 {
+		t.Logf("replay mode (VERIF_C14_DUMP): no transcript written")
+		return
+	}
 	if out == "" || job == "" {
 		t.Logf("VERIF_OUT/VERIF_JOB not set: transcript of %d lines not written", len(lines))
 		return
@@ -192,6 +201,30 @@ func edgeLen(r *lib.Rng, sizes ...int) int {
 		n = 0
 	}
 	return n
+}
+
+// repLimbBytes returns n bytes whose little-endian 64-bit limbs are drawn
+// (with repetition) from a pool of three values - two edge limbs and a random
+// one - so that limbs of one operand, and of two operands drawn with the same
+// pool, are frequently EQUAL: differences of limbs that cancel to exactly zero
+// with a pending borrow are the case lib.EdgeBytes (independent limbs) almost
+// never produces.  top masks the most significant byte (0xff = keep).
+func repLimbBytes(r *lib.Rng, n int, c uint64, top byte) []byte {
+	pool := [3]uint64{r.EdgeLimb(c), r.EdgeLimb(c), r.U64()}
+	if r.Intn(4) == 0 {
+		pool[1] = pool[0] + uint64(r.Intn(3)) - 1
+	}
+	b := make([]byte, n)
+	for i := 0; i < n; i += 8 {
+		v := pool[r.Intn(3)]
+		for j := 0; j < 8 && i+j < n; j++ {
+			b[i+j] = byte(v >> (8 * j))
+		}
+	}
+	if n > 0 {
+		b[n-1] &= top
+	}
+	return b
 }
 
 // unaligned returns a copy of b that starts at an odd address offset inside a
